@@ -77,6 +77,13 @@ CLAIMED = {
 
 NOT_YET = {}
 
+# per-property claim fragments: props/claims/CXX.json = {"text","note","technique","design"[,"category"]}
+_cd = os.path.join(VERIF, "props", "claims")
+if os.path.isdir(_cd):
+    for _f in sorted(os.listdir(_cd)):
+        if _f.endswith(".json"):
+            CLAIMED[_f[:-5]] = json.load(open(os.path.join(_cd, _f)))
+
 def main():
     props = [json.loads(l) for l in open(os.path.join(VERIF, "properties.jsonl"))]
     checks = []; na = []
@@ -91,7 +98,7 @@ def main():
                 "evidence_file": "evidence/%s.json" % pid,
                 "replay_cmd_template": "./check %s --replay {path}" % pid,
                 "engine": "lean-proof+correspondence",
-                "level_claimed": {"category": "proof", "text": c["text"], "design_ref": c["design"]},
+                "level_claimed": {"category": c.get("category", "proof"), "text": c["text"], "design_ref": c["design"]},
                 "level_note": c["note"],
                 "technique": c["technique"],
             })
